@@ -180,40 +180,7 @@ void exhaustive(const vf::Options& o, vf::Tally& tally)
 {
    if (o.get("zoo", 1) == 0) return;
    Case c = zoo_case();
-   vf::Outcome out = run_case(c, o);
-   // a new signature shown by the zoo is minimised here (delta debugging over ops) before it is written out
-   for (auto& f : out.findings) {
-      if (tally.excluded.count(f.signature) || o.get("survey", 0) != 0) continue;
-      Case small = c;
-      int budget = 250;
-      for (std::size_t n = 2; small.ops.size() >= 2 && budget > 0;) {
-         const std::size_t chunk = std::max<std::size_t>(1, small.ops.size() / n);
-         bool reduced = false;
-         for (std::size_t i = 0; i < small.ops.size() && budget > 0; i += chunk) {
-            Case cand = small;
-            cand.ops.erase(cand.ops.begin() + long(i), cand.ops.begin() + long(std::min(small.ops.size(), i + chunk)));
-            --budget;
-            vf::Outcome r = run_case(cand, o);
-            bool still = false;
-            for (auto& g : r.findings) still = still || g.signature == f.signature;
-            if (still) {
-               small = cand;
-               n = std::max<std::size_t>(n - 1, 2);
-               reduced = true;
-               break;
-            }
-         }
-         if (!reduced) {
-            if (chunk == 1) break;
-            n = std::min(small.ops.size(), n * 2);
-         }
-      }
-      vf::Outcome one;
-      one.findings.push_back(f);
-      vf::account(o, tally, to_text(small), "minimised from the zoo script", one);
-      --tally.evaluations;
-   }
-   vf::account(o, tally, to_text(c), "zoo script: every op of the table x operand variants x 4 rounds (" + std::to_string(c.ops.size()) + " ops)", out);
+   account_fixed_script(o, tally, c, "zoo script: every op of the table x operand variants x 4 rounds (" + std::to_string(c.ops.size()) + " ops)", run_case);
    tally.notes["zoo"] = "fixed script running every op with 9-40 operand variants, 4 rounds: " + std::to_string(c.ops.size()) + " ops";
 }
 
